@@ -296,6 +296,11 @@ class Report:
         if c["decided"] == 0:
             print("HARNESS-ERROR: nothing was fully decided (all inconclusive)")
             return EXIT_HARNESS
+        dead = [sec["section"] for sec in self.sections if sec["inconclusive"] > 0 and sec["decided"] == 0]
+        if dead:
+            # a whole section that the encoding can no longer follow is never a pass (e.g. the code started hashing symbolic values)
+            print(f"HARNESS-ERROR: every input of section(s) {dead} was inconclusive; first reason: {self.inconclusive[0].get('reason')}")
+            return EXIT_HARNESS
         if c["obligations"] == 0:
             print("HARNESS-ERROR: no obligation was generated (vacuous run)")
             return EXIT_HARNESS
